@@ -64,13 +64,22 @@ Theorem write_key_truthful : forall T k b, write_key T k = Ok b -> snd b = Z.of_
 Proof. exact Proofs.write_key_truthful. Qed.
 Print Assumptions write_key_truthful.
 
-(* The "every term has 4 bytes" invariant, which wfkey needs, survives reads that find their bytes ... *)
-Theorem read_keeps_all4 : forall T s,
-  all4 T = true -> (8 <= length s)%nat -> all4 (read_terms T s) = true.
+(* The "every term has 4 bytes" invariant, which wfkey needs, survives EVERY read and every history
+   (since 708c13e a key cut short by the end of the data is rejected) ... *)
+Theorem read_keeps_all4 : forall T s, all4 T = true -> all4 (read_terms T s) = true.
 Proof. exact Proofs.read_terms_all4. Qed.
 Print Assumptions read_keeps_all4.
 
-(* ... and is broken by a truncated read: a short key enters the process-wide set (same finding). *)
-Theorem short_key_poison_refuted : exists T s, all4 T = true /\ all4 (read_terms T s) = false.
+Theorem history_keeps_all4 : forall h T, all4 T = true -> all4 (run_history T h) = true.
+Proof. exact Proofs.run_history_all4. Qed.
+Print Assumptions history_keeps_all4.
+
+(* ... while the reader before 708c13e let a truncated read put a short key into the process-wide set
+   (recorded as fixed in known_findings/C20.json, F-C20-2). *)
+Theorem short_key_poison_refuted_before_708c13e :
+  exists T s, all4 T = true /\ all4 (read_terms_v0 T s) = false.
 Proof. exists [], [0;0;0;0;97;98]. split; reflexivity. Qed.
-Print Assumptions short_key_poison_refuted.
+Print Assumptions short_key_poison_refuted_before_708c13e.
+
+Example short_key_now_rejected : read_key [] [0;0;0;0;97;98] = Err IOErr.
+Proof. reflexivity. Qed.
